@@ -160,8 +160,8 @@ def phase_replay(ctx, dot, nproc):
     jobs += [("disk", w, nproc, max_len, ctx.seed, deadline) for w in range(nproc)]
     with mp.get_context("fork").Pool(nproc) as pool:
         results = pool.map(_walk_worker, jobs, chunksize=1)
-    summary = {}
-    for r in results:
+    summary, sampled = {}, set()
+    for r in sorted(results, key=lambda r: r["kind"] != "disk"):
         s = summary.setdefault(r["kind"], {"targets": 0, "unreached": 0, "steps": 0, "behaviours": 0, "validated": 0,
                                            "covered": 0, "git_calls": 0, "failed_clauses": 0})
         for k in s:
@@ -173,8 +173,9 @@ def phase_replay(ctx, dot, nproc):
         ctx.cov["drift"] += r["ndrift"] - len(r["drift"])
         for key in r["nontrivial"]:
             ctx.nontrivial(key)
-        for smp in r["samples"]:
-            ctx.sample({"kind": "graph-replay", **smp}, limit=3)
+        if r["samples"] and r["kind"] not in sampled:
+            sampled.add(r["kind"])
+            ctx.sample({"kind": "graph-replay", **r["samples"][0]}, limit=3)
         ctx.count(r["steps"])
         ctx.validated(r["validated"])
     for kind, s in summary.items():
